@@ -142,7 +142,10 @@ def check(run):
            (1, ["C1", "s1", "c0"]), (1, ["c1", "s1", "c0", "c0"]), (1, ["s0", "s1", "c0"]), (1, ["c1", "s1", ""]),
            (2, ["s2", "s1", "c0", "c1", "c-2"]), (2, ["s2", "s1", "c0", "c1", "-c2", "c2"]),
            (2, ["s2", "s1", "c0", "c1", "c3"]), (3, ["s3", "s2", "s1", "c0", "c1", "c2", "s3"]),
-           (1, ["c1", "s1", 0]), (0, ["-c0"]), (0, ["c0"]), (0, ["s0"]), (2, ["-s2", "-s1", "-c0", "-c1", "-c2"])]
+           (1, ["c1", "s1", 0]), (0, ["-c0"]), (0, ["c0"]), (0, ["s0"]), (2, ["-s2", "-s1", "-c0", "-c1", "-c2"]),
+           # one function both plain and negated while another one is missing; the same with both signs
+           (1, ["s1", "c0", "-s1"]), (1, ["c1", "-c1", "c0"]), (2, ["s2", "s1", "c0", "c1", "-s2"]), (2, ["-c2", "s1", "c0", "c1", "c2"]),
+           (3, ["s3", "s2", "s1", "c0", "c1", "-c1", "c3"]), (1, ["-c0", "c0", "s1"])]
     for l, labs in bad:
         one_case(run, l, default_cart(l), labs, "malformed-or-edge")
     # the caller rescales / edits the expansions and matrices it obtained (they are return values): later results must not change
